@@ -372,6 +372,39 @@ def lengthCheck (len : Option Text) (count : Nat) : Except PErr Unit :=
     | Option.none => .error .value
     | some n => if 0 < n ∧ n ≠ (count : Int) then .error .parse else .ok ()
 
+/-- `cls(cls._read_sml_token(parser))`: wrap what a value reader returned -/
+def mapOk {α β : Type} (g : α → β) : Except PErr (α × List Text) → Except PErr (β × List Text)
+  | .ok (a, r) => .ok (g a, r)
+  | .error e => .error e
+
+/-- `<class>.from_sml(parser)` for the classes other than `L` -/
+def readLeaf (parseF : Text → Option Nat) : Ty → List Text → Except PErr (Item × List Text)
+  | .b, ts => mapOk (fun vs => Item.bin (vs.map Int.toNat)) (readNums true 0 255 ts)
+  | .boolean, ts => mapOk (fun vs => Item.bool (vs.map (· == 1))) (readNums true 0 1 ts)
+  | .a, ts => mapOk Item.strA (readStr latin1Encode ts)
+  | .j, ts => mapOk Item.strJ (readStr jisEncode ts)
+  | .int t, ts => mapOk (Item.int t) (readNums false t.min t.max ts)
+  | .flt t, ts => mapOk (Item.flt t) (readFlts parseF t ts)
+  | .l, _ => .error .parse   -- not reached: `readItem` handles `L` itself
+
+/-- `ItemL.from_sml` = `cls(cls._read_items(parser, …))`, given the item loop: optional `[ n ]`, the loop, then the length check -/
+def readItems (loop : List Text → Except PErr (List Item × List Text)) : List Text → Except PErr (Item × List Text)
+  | [] => .error .index
+  | p :: ts3 =>
+    if p = [91] then
+      match ts3 with
+      | [] => .error .index
+      | [_] => .error .index
+      | len :: cl :: ts4 =>
+        if cl ≠ [93] then .error .parse else
+        match loop ts4 with
+        | .error e => .error e
+        | .ok (xs, r) =>
+          match lengthCheck (some len) xs.length with
+          | .error e => .error e
+          | .ok _ => .ok (.list xs, r)
+    else mapOk Item.list (loop (p :: ts3))
+
 mutual
 /-- `Item._read_item` followed by `<class>.from_sml(parser)` -/
 def readItem (parseF : Text → Option Nat) : Nat → List Text → Except PErr (Item × List Text)
@@ -386,51 +419,8 @@ def readItem (parseF : Text → Option Nat) : Nat → List Text → Except PErr 
       | ty :: ts2 =>
         match typeOf ty with
         | Option.none => .error .parse
-        | some .l =>
-          -- `_read_items`
-          match ts2 with
-          | [] => .error .index
-          | p :: ts3 =>
-            if p = [91] then
-              match ts3 with
-              | [] => .error .index
-              | [_] => .error .index
-              | len :: cl :: ts4 =>
-                if cl ≠ [93] then .error .parse else
-                match readLoop parseF f ts4 with
-                | .error e => .error e
-                | .ok (xs, r) =>
-                  match lengthCheck (some len) xs.length with
-                  | .error e => .error e
-                  | .ok _ => .ok (.list xs, r)
-            else
-              match readLoop parseF f ts2 with
-              | .error e => .error e
-              | .ok (xs, r) => .ok (.list xs, r)
-        | some .b =>
-          match readNums true 0 255 ts2 with
-          | .error e => .error e
-          | .ok (vs, r) => .ok (.bin (vs.map Int.toNat), r)
-        | some .boolean =>
-          match readNums true 0 1 ts2 with
-          | .error e => .error e
-          | .ok (vs, r) => .ok (.bool (vs.map (· == 1)), r)
-        | some .a =>
-          match readStr latin1Encode ts2 with
-          | .error e => .error e
-          | .ok (bs, r) => .ok (.strA bs, r)
-        | some .j =>
-          match readStr jisEncode ts2 with
-          | .error e => .error e
-          | .ok (bs, r) => .ok (.strJ bs, r)
-        | some (.int t) =>
-          match readNums false t.min t.max ts2 with
-          | .error e => .error e
-          | .ok (vs, r) => .ok (.int t vs, r)
-        | some (.flt t) =>
-          match readFlts parseF t ts2 with
-          | .error e => .error e
-          | .ok (vs, r) => .ok (.flt t vs, r)
+        | some .l => readItems (readLoop parseF f) ts2
+        | some ty' => readLeaf parseF ty' ts2
 /-- the `while parser.peek_token().value not in ">."` loop of `_read_items` (consumes the closing token) -/
 def readLoop (parseF : Text → Option Nat) : Nat → List Text → Except PErr (List Item × List Text)
   | 0, _ => .error .fuel
